@@ -1,8 +1,14 @@
 #!/usr/bin/env python3
-"""why.py <variant> [PROP..]: the violations the quick rules report on one pre-extracted variant (development aid)."""
+"""why.py [--all-configs] [--dir D] <variant> [PROP..]: the violations the quick rules report on one pre-extracted variant (development aid)."""
 import sys, os
 sys.path.insert(0, os.path.dirname(os.path.abspath(__file__)))
 import fast
+if sys.argv[1] == "--all-configs":
+    fast.ALL_CONFIGS = True
+    del sys.argv[1]
+if sys.argv[1] == "--dir":
+    fast.DIR = sys.argv[2]
+    del sys.argv[1:3]
 name = sys.argv[1]
 props = sys.argv[2:] or fast.PROPS
 _, out = fast.run_variant(name)
